@@ -357,6 +357,7 @@ func C20(p *core.Program, r *core.Report) {
 
 	// ---- (6) link events reach the link state the arc costs are computed from
 	checkLinkEvents(p, r)
+	checkDisappearanceAfterDeactivation(p, r)
 
 	// ---- (5) AT
 	g := newGuardedEngine(p)
@@ -532,4 +533,47 @@ func fromActiveSenders(v ssa.Value) bool {
 		c, ok := x.(*ssa.Call)
 		return ok && core.NameIs(core.CalleeName(c), claPkg+".Manager.Sender")
 	})
+}
+
+// checkDisappearanceAfterDeactivation: DTLSR ignores a reported disappearance
+// while another ACTIVE sender leads to the same peer. That test is only right
+// if the adapter whose peer disappeared is no longer listed as active when the
+// report arrives: the CLA manager must restart (deactivate) the adapter before
+// it passes the PeerDisappeared status on to the Core.
+func checkDisappearanceAfterDeactivation(p *core.Program, r *core.Report) {
+	mh := p.Func(claPkg, "Manager", "handler")
+	pd := constVal(p, claPkg, "PeerDisappeared")
+	isRestart := func(i ssa.Instruction) bool {
+		c, ok := i.(ssa.CallInstruction)
+		return ok && core.NameIs(core.CalleeName(c), claPkg+".Manager.Restart")
+	}
+	n := 0
+	core.EachInstr(mh, func(in ssa.Instruction) {
+		isFwd := false
+		switch x := in.(type) {
+		case *ssa.Send:
+			isFwd = pathEndsWith(x.Chan, "outChnl")
+		case *ssa.Call:
+			isFwd = core.NameIs(core.CalleeName(x), claPkg+".Manager.forward")
+		}
+		if !isFwd {
+			return
+		}
+		// on the PeerDisappeared arm?
+		onArm := false
+		for _, cd := range core.DominatingConds(in.Block()) {
+			if b, ok := cd.V.(*ssa.BinOp); ok && b.Op == token.EQL && cd.True && pathEndsWith(b.X, "MessageType") {
+				if k, isC := core.ConstInt(b.Y); isC && k == pd {
+					onArm = true
+				}
+			}
+		}
+		if !onArm {
+			return
+		}
+		n++
+		r.Check(core.MustPassBefore(in, isRestart), "link-events/"+fname(mh)+"/deactivated-before-reported", "the CLA manager restarts (deactivates) an adapter before it passes the adapter's PeerDisappeared status on: DTLSR keeps a link alive while an active sender to the peer exists, so the disappearing adapter must not count as active any more when the report arrives", p.Pos(in.Pos()), "", "the status is forwarded before Manager.Restart: DTLSR finds the disappearing adapter itself among the active senders, ignores the loss, the dead link keeps cost 0 and is never purged")
+	})
+	r.Count("forwarded PeerDisappeared statuses in Manager.handler", n)
+	r.Min("forwarded PeerDisappeared statuses in Manager.handler", 1)
 }
